@@ -74,7 +74,7 @@ func c20Connect(cc connackCase) {
 			r.pan = recover()
 			resc <- r
 		}()
-		r.err = cln.Connect(p.uri, clientConnectMsg(cid, 60))
+		r.err = p.connect(cln, clientConnectMsg(cid, 60))
 	}()
 	conn, err := p.acceptRaw(5 * time.Second)
 	if err != nil {
@@ -145,7 +145,11 @@ func c20Connect(cc connackCase) {
 		fail("c20:goroutines-left:"+strings.Join(uniq(tops), "+"), fmt.Sprintf("%d library goroutine(s) remain after Connect returned %v", len(left), r.err))
 	}
 	out.Count("c20.connect_cases", 1)
-	out.Class("connect/" + cc.desc)
+	if p.tls {
+		out.Class("connect-tls/" + cc.desc)
+	} else {
+		out.Class("connect/" + cc.desc)
+	}
 }
 
 // ---------------------------------------------------------------------------
@@ -534,6 +538,17 @@ func TestC20(t *testing.T) {
 		out.Begin(id, 0, map[string]interface{}{"answer": cc.desc})
 		c20Connect(cc)
 		out.End()
+		// the same answer over TLS, where the client goes through ConnectTLS
+		id = fmt.Sprintf("c20/connect-tls/%d", k)
+		if !out.Only(id) {
+			continue
+		}
+		out.Begin(id, 0, map[string]interface{}{"answer": cc.desc, "transport": "tls"})
+		peerTLS.Store(true)
+		c20Connect(cc)
+		peerTLS.Store(false)
+		out.Count("c20.connect_cases_tls", 1)
+		out.End()
 	}
 	n := pick(240, 6000)
 	for g := 0; g < n; g++ {
@@ -544,7 +559,12 @@ func TestC20(t *testing.T) {
 		seed := caseSeed("c20d", g)
 		out.Begin(id, seed, nil)
 		usedIDs = map[uint16]bool{}
+		peerTLS.Store(g%4 == 3) // every fourth session over TLS / ConnectTLS
+		if g%4 == 3 {
+			out.Count("c20.dispatch_sessions_tls", 1)
+		}
 		c20Dispatch(g, seed)
+		peerTLS.Store(false)
 		out.End()
 	}
 }
